@@ -282,11 +282,20 @@ def _pool_task(args):
     return r, time.monotonic(), os.getpid()
 
 
+def _spawn_init(spec):
+    """initializer of a worker started with the `spawn` method (a fresh interpreter, nothing inherited): do what
+    a user script does at import time (types, primitive set, toolbox)"""
+    spec = dict(spec, mode="worker")
+    fam = FAMILIES[spec["family"]](spec)
+    fam.setup()
+    _spawn_init.family = fam
+
+
 class DelayedPoolMap(object):
     """toolbox.map replacement: an order-preserving parallel map over a process pool; task i of each call sleeps
     a delay taken from a private generator so that completion orders differ from submission order."""
 
-    def __init__(self, kind, workers, delay_seed, unit=0.004):
+    def __init__(self, kind, workers, delay_seed, unit=0.004, spec=None):
         import multiprocessing
         self.kind = kind
         self.workers = workers
@@ -301,6 +310,9 @@ class DelayedPoolMap(object):
             self.pool = ctx.Pool(workers)
         elif kind == "mp_imap":
             self.pool = ctx.Pool(workers)
+        elif kind == "mp_spawn":
+            wspec = {k: v for k, v in (spec or {}).items() if k in ("family", "params", "stream", "perturb")}
+            self.pool = multiprocessing.get_context("spawn").Pool(workers, initializer=_spawn_init, initargs=(wspec,))
         elif kind == "cf":
             import concurrent.futures
             self.pool = concurrent.futures.ProcessPoolExecutor(workers, mp_context=ctx)
@@ -323,7 +335,7 @@ class DelayedPoolMap(object):
         else:                  # a few stragglers
             delays = [self.unit * 6 if r < max(1, n // 4) else 0.0 for r in ranks]
         tasks = [(f, x, d) for x, d in zip(xs, delays)]
-        if self.kind == "mp":
+        if self.kind in ("mp", "mp_spawn"):
             out = self.pool.map(_pool_task, tasks, 1)
         elif self.kind == "mp_imap":
             out = list(self.pool.imap(_pool_task, tasks, 1))
@@ -339,7 +351,7 @@ class DelayedPoolMap(object):
         return [o[0] for o in out]
 
     def close(self):
-        if self.kind in ("mp", "mp_imap"):
+        if self.kind in ("mp", "mp_imap", "mp_spawn"):
             self.pool.close()
             self.pool.join()
         else:
@@ -1190,6 +1202,16 @@ class ScriptedRandom(object):
     def choice(self, seq):
         return seq[self._raw() % len(seq)]
 
+    def sample(self, seq, k):
+        if k != 2:
+            raise AttributeError("ScriptedRandom: sample only for k = 2")
+        n = len(seq)
+        i = self._raw() % n
+        j = self._raw() % (n - 1)
+        if j >= i:
+            j += 1
+        return [seq[i], seq[j]]
+
     def getstate(self):
         return self.cursor
 
@@ -1258,11 +1280,19 @@ class ModelGA(Family):
         p = self.params
         tb = self.toolbox
         pop = st["population"]
-        off = tb.select(pop, len(pop))
-        off = algorithms.varAnd(off, tb, p["cxpb"][0] / float(p["cxpb"][1]), p["mutpb"][0] / float(p["mutpb"][1]))
-        n = self.evaluate_invalid(off)
-        st["halloffame"].update(off)
-        pop[:] = off
+        cxpb, mutpb = p["cxpb"][0] / float(p["cxpb"][1]), p["mutpb"][0] / float(p["mutpb"][1])
+        loop = p.get("loop", 0)
+        if loop == 0:           # algorithms.eaSimple generation
+            off = tb.select(pop, len(pop))
+            off = algorithms.varAnd(off, tb, cxpb, mutpb)
+            n = self.evaluate_invalid(off)
+            st["halloffame"].update(off)
+            pop[:] = off
+        else:                   # algorithms.eaMuPlusLambda / eaMuCommaLambda generation
+            off = algorithms.varOr(pop, tb, p["lambda_"], cxpb, mutpb)
+            n = self.evaluate_invalid(off)
+            st["halloffame"].update(off)
+            pop[:] = tb.select(pop + off if loop == 1 else off, p["mu"])
         self.log(st, pop, gen=gen, nevals=n)
 
     def observe(self, st):
@@ -1357,7 +1387,7 @@ def run(spec):
     ngen = spec["ngen"]
     pm = None
     if mode == "pool":
-        pm = DelayedPoolMap(spec.get("pool_kind", "mp"), spec["workers"], spec.get("delay_seed", 0))
+        pm = DelayedPoolMap(spec.get("pool_kind", "mp"), spec["workers"], spec.get("delay_seed", 0), spec=spec)
         pm.record = isinstance(fam, ModelGA)
         fam.toolbox.register("map", pm)
     try:
